@@ -11,7 +11,11 @@ every read and after every operation, see DESIGN.md section 4.1.
 """
 from __future__ import annotations
 
+import faulthandler
 import hashlib
+import json
+import select
+import signal
 import os
 import threading as _real_threading
 
@@ -57,7 +61,7 @@ DESCRIPTION = {
     "required_probes": {
         "quick": ["rejected_open_then_read", "nested_rejected_then_outer_read", "exit_while_other_in_scope", "ident_reused",
                   "falsy_override_masks_env", "switch_in___call__", "switch_in___enter__", "switch_in___exit__", "switch_in___getattr__", "insertion_sweep", "crowd",
-                  "strict_warnings_world", "runner_constructed_in_scope", "runner_evaluation_failed", "foreign_thread", "open_rejected_because_of_a_value"],
+                  "strict_warnings_world", "runner_constructed_in_scope", "runner_evaluation_failed", "foreign_thread", "open_rejected_because_of_a_value", "shared_handle_scopes_overlap", "fork_while_other_thread_in_scope"],
         "thorough": ["rejected_open_then_read", "nested_rejected_then_outer_read", "exit_while_other_in_scope", "ident_reused",
                      "ident_reused_after_rejected_open", "falsy_override_masks_env", "read_straddles_env_flip"],
     },
@@ -198,7 +202,46 @@ def _prog(g, swarm, nops):
     return ops[:nops + 1]
 
 
+def gen_shared(g, seed, ident_base) -> dict:
+    """Shared-handle world (round 11): one thread keeps the object returned by `SQLLineageConfig(...)`, and it is entered -
+    possibly at overlapping times - by that thread and by others. What is read *inside* such scopes is judged loosely
+    (the override may be taken to belong to the caller or to whoever enters); what every thread reads after the scope
+    it entered has ended, and whether it can open scopes of its own afterwards, is judged strictly."""
+    kw = _kw(g)
+    keys = [k for k, _ in kw]
+
+    def tail():
+        ops = [["read", g.choice(keys)] for _ in range(g.choice([1, 2]))]
+        if g.random() < 0.5:
+            ops.append(["scope", _kw(g), _reads(g, g.choice([1, 2])), g.random() < 0.3])
+            ops.append(["read", g.choice(keys)])
+        return ops
+
+    nthreads = g.choice([2, 2, 3])
+    threads = []
+    for i in range(nthreads):
+        prog = []
+        if i == 0:
+            prog.append(["hcall", kw])
+        prog.append(["henter", [["read", g.choice(keys)] for _ in range(g.choice([0, 1, 2]))], g.random() < 0.25])
+        prog += tail()
+        if i > 0 and g.random() < 0.3:
+            prog.append(["henter", [["read", g.choice(keys)]], False])
+            prog += tail()
+        threads.append({"prog": prog, "after": None, "reuse": False})
+    env0 = {}
+    if g.random() < 0.4:
+        k = g.choice([k for k in keys if k != "DIRECTORY"] or ["DEFAULT_SCHEMA"])
+        env0[k] = g.choice(ENV_BOOL if k in BOOL_KEYS else ENV_STR)
+    return {"seed": seed, "ident_base": ident_base, "threads": threads, "env0": env0, "operator": [],
+            "sched": g.choice(["random", "sticky", "sticky50", "pct1", "pct2", "pct3", "retbias"]), "line": g.random() < 0.7,
+            "gran": g.choice(["line", "line", "instr"]), "final_probe": True, "crowd": 0, "werror": False, "shared_handle": True}
+
+
 def gen(seed, ident_base=1000) -> dict:
+    gs = stream(seed, "gen-shared")
+    if gs.random() < 0.06:
+        return gen_shared(gs, seed, ident_base)
     g = stream(seed, "gen")
     swarm = {
         "bad": g.random() < 0.7,
@@ -221,6 +264,12 @@ def gen(seed, ident_base=1000) -> dict:
     for th in threads:
         if fg.random() < 0.1:
             th["foreign"] = True
+    gf = stream(seed, "gen-fork")
+    if gf.random() < 0.05 and not swarm["runner"]:
+        # (not in worlds with library operations: a thread parked inside a lazy import holds import locks the child
+        # would inherit - a property of fork in any threaded Python program, not of the configuration)
+        th = gf.choice(threads[:nthreads])
+        th["prog"].insert(gf.randrange(len(th["prog"]) + 1), ["fork_probe"])
     env0 = {}
     operator = []
     for i, th in enumerate(threads):
@@ -421,6 +470,11 @@ def run_one(spec: dict) -> dict:
         v1 = len(w.env_hist) - 1
         scope = w.scopes.get(t.idx)
         adm = [model_read(scope, key, w.env_hist[v], dflt) for v in range(v0, v1 + 1)]
+        if t.ctx.get("loose"):
+            # shared-handle world, between this thread's call / enter and its exit: whether the override kept in the
+            # handle belongs to the caller or to whoever enters it is not stated - either reading is admitted here
+            adm += [model_read(shared["kw"], key, w.env_hist[v], dflt) for v in range(v0, v1 + 1)]
+            w.probe("loose_read_on_shared_handle")
         ok = any(same(val, a) for a in adm)
         w.log(t.idx, tag, [key], repr(val))
         if v1 > v0:
@@ -538,6 +592,118 @@ def run_one(spec: dict) -> dict:
                         w.log(t.idx, "enter", op[1], "refused")
                         w.violate("open_refused", f"thread {t.idx} (ident {t.ident}): a valid, non-nested override was refused: {e}", t.idx)
                 w.log(t.idx, "exit", [], "ok")
+            elif kind == "fork_probe":
+                # the process forks here (a worker pool, a daemonising server): only this thread exists in the child. A
+                # brand-new thread of the child may be given the identifier of ANY thread the parent had - also of one that
+                # was inside a scope at the fork. Such a thread set nothing: it must read the environment / default value and
+                # be able to open a scope of its own. The child is this very thread taking, in turn, the identifier of every
+                # other simulated thread; it reports through a pipe and exits.
+                import warnings as _w
+
+                me = t
+                others = [o for o in sched.threads if o is not me and o.ident != me.ident]
+                rfd, wfd = os.pipe()
+                with no_preempt():
+                    with _w.catch_warnings():
+                        _w.simplefilter("ignore", DeprecationWarning)
+                        pid = os.fork()
+                    if pid == 0:
+                        out = []
+                        try:
+                            if os.environ.get("VERIF_DEBUG_FORK"):
+                                faulthandler.register(signal.SIGALRM, all_threads=True)
+                                signal.alarm(5)
+                            os.close(rfd)
+                            own = me.ident
+                            for o in others:
+                                me.ident = o.ident
+                                vals = {}
+                                for k in KEYS:
+                                    try:
+                                        vals[k] = getattr(cfg, k)
+                                    except BaseException as e:
+                                        vals[k] = "raised:" + type(e).__name__
+                                opened, inside_v = True, None
+                                try:
+                                    with cfg(DEFAULT_SCHEMA="childprobe"):
+                                        inside_v = cfg.DEFAULT_SCHEMA
+                                except ConfigException as e:
+                                    opened = False
+                                out.append([o.idx, o.ident, vals, opened, inside_v])
+                            me.ident = own
+                            os.write(wfd, json.dumps(out).encode())
+                        finally:
+                            os._exit(0)
+                    os.close(wfd)
+                    data = b""
+                    while True:
+                        if not select.select([rfd], [], [], 45.0)[0]:
+                            os.kill(pid, signal.SIGKILL)
+                            os.waitpid(pid, 0)
+                            raise HarnessError("forked probe child did not answer within 45 s")
+                        b = os.read(rfd, 65536)
+                        if not b:
+                            break
+                        data += b
+                    os.close(rfd)
+                    os.waitpid(pid, 0)
+                    if not data:
+                        raise HarnessError("forked probe child died without an answer")
+                w.probe("fork_probe")
+                w.log(t.idx, "fork_probe", [], short(data.decode(), 12))
+                env = w.env_hist[-1]
+                for oidx, oident, vals, opened, inside_v in json.loads(data or b"[]"):
+                    if w.scopes.get(oidx) is not None:
+                        w.probe("fork_while_other_thread_in_scope")
+                    for k in KEYS:
+                        want = model_read(None, k, env, dflt)
+                        if not same(vals[k], want):
+                            w.violate("wrong_read_in_forked_child", f"after a fork by thread {t.idx}, a new thread of the child that is given identifier {oident} "
+                                      f"(thread {oidx} of the parent, own scope there {w.scopes.get(oidx)!r}) read {k} = {vals[k]!r}; it set nothing: expected {want!r}", t.idx)
+                    if not opened or inside_v != "childprobe":
+                        w.violate("open_refused_in_forked_child", f"after a fork by thread {t.idx}, a new thread of the child given identifier {oident} could not open a scope of its own "
+                                  f"(opened={opened}, read inside {inside_v!r})", t.idx)
+            elif kind == "hcall":
+                # shared-handle world: the object returned by the call is kept and entered later - by the caller and by
+                # other threads. Between its call and its own enter the caller is not judged ("pending").
+                kw = {k: v for k, v in op[1]}
+                t.ctx["loose"] = True
+                shared["kw"] = {k: coerce(k, v) for k, v in kw.items()}
+                try:
+                    shared["h"] = cfg(**kw)
+                    w.log(t.idx, "hcall", op[1], "ok")
+                except ConfigException as e:
+                    shared["h"] = False
+                    w.violate("open_refused", f"thread {t.idx} (ident {t.ident}): a valid, non-nested override call was refused: {e}", t.idx)
+            elif kind == "henter":
+                if in_scope:
+                    raise HarnessError("henter inside a scope")
+                sched.block_until(lambda: shared["h"] is not None or shared["owner_done"])
+                h = shared["h"]
+                if not h:
+                    w.log(t.idx, "henter", [], "skipped")
+                    continue
+                w.probe("shared_handle_entered")
+                if shared["inside"]:
+                    w.probe("shared_handle_scopes_overlap")
+                t.ctx["loose"] = True
+                shared["inside"] += 1
+                try:
+                    with h:
+                        w.log(t.idx, "henter", [], "ok")
+                        do_ops(t, op[1], True)
+                        if op[2]:
+                            w.log(t.idx, "raise", [], "boom")
+                            raise Boom()
+                except Boom:
+                    pass
+                except ConfigException as e:
+                    w.violate("open_refused", f"thread {t.idx} (ident {t.ident}) was refused a scope on the shared handle although it is in no scope: {e}", t.idx)
+                finally:
+                    shared["inside"] -= 1
+                # the scope this thread entered has ended: from here on it sees the environment / default again
+                t.ctx["loose"] = False
+                w.log(t.idx, "hexit", [], "ok")
             elif kind == "nested":
                 if not in_scope:
                     raise HarnessError("nested outside scope")
@@ -622,6 +788,7 @@ def run_one(spec: dict) -> dict:
 
     handles = {}
     runners = {}
+    shared = {"h": None, "kw": None, "inside": 0, "owner_done": not any(op[0] == "hcall" for th in spec["threads"] for op in th["prog"])}
     crowd_n = int(spec.get("crowd") or 0)
     crowd_state = {"inside": 0, "actives_done": 0}
     base = spec.get("ident_base", 1000)
@@ -651,6 +818,8 @@ def run_one(spec: dict) -> dict:
                     do_ops(t, th["prog"], False)
                 except Boom:
                     pass
+                if any(op[0] == "hcall" for op in th["prog"]):
+                    shared["owner_done"] = True
                 t.ctx["after_bad"] = False
                 for k in (KEYS if spec.get("final_probe") else []):
                     read(t, k, "end_read")
@@ -887,6 +1056,11 @@ def _op_variants(ops):
             if len(op[1]) > 1:
                 for k in range(len(op[1])):
                     out.append(ops[:i] + [[op[0], op[1][:k] + op[1][k + 1:], op[2], op[3]]] + ops[i + 1:])
+        elif op[0] == "henter":
+            for b in _op_variants(op[1]):
+                out.append(ops[:i] + [[op[0], b, op[2]]] + ops[i + 1:])
+            if op[2]:
+                out.append(ops[:i] + [[op[0], op[1], False]] + ops[i + 1:])
         elif op[0] == "nested":
             if op[2]:
                 out.append(ops[:i] + [[op[0], op[1], []]] + ops[i + 1:])
